@@ -277,7 +277,7 @@ fn vp_native_settings_sequences_body() {
     let alphabet = [SMaxH(0, 7), SMaxH(1, 9), SFollow(0, false), SCompress(0, false), SCompress(1, false), SMaxR(0, 2), SHeader(0, "X-A", "s1"), SHeader(1, "x-a", "s2"),
                     SAppend(0, "X-A", "s3"), SAppend(0, "Accept", "text/x"), SAppend(1, "X-A", "s4"), SClone(0), SGet(0), SGet(1), BMaxH(3), BFollow(false), BCompress(false), BCompress(true), BMaxR(1),
                     BHeader("x-a", "b1"), BAppend("X-A", "b2"), BHeader("User-Agent", "ua"), BAppend("accept", "b/acc"),
-                    STimeout(0, 3), SReadT(1, 7), SCerts(0, true), BTimeout(1), BCerts(true), BCerts(false), SNames(0, true), BNames(true), SConnT(0, 11), BConnT(13)];
+                    STimeout(0, 3), SReadT(1, 7), SCerts(0, true), BTimeout(1), BCerts(true), BCerts(false), SNames(0, true), BNames(true), SConnT(0, 11), BConnT(13), BMaxR(5), BFollow(true), SMaxR(0, 5), SFollow(0, true), BMaxH(100)];
     let check = |what: &str, seq: &[Op], p: &mut PreparedRequest<body::Empty>, m: &M| {
         let ctx = format!("{} after {:?}", what, seq);
         // what the request says on the wire is what its header map holds: every value of every name, in order
@@ -639,6 +639,26 @@ fn vp_native_redirect_matrix_body() {
             }
         } }
     } } }
+    // the limit and the switch in effect are the ones set last, also when the last value is the one the library starts with:
+    // a session raised to 8 (or with following switched off), then the request sets 5 (or switches following on again)
+    {
+        let mut s8 = s.clone(); s8.max_redirections(8);
+        let chain7 = format!("{}/c/302/7/abs/x", base);
+        seen.lock().unwrap().clear();
+        let res = s8.get(&chain7).max_redirections(5).send(); cases += 1;
+        assert!(matches!(res.map_err(|e| e.into_kind()), Err(crate::ErrorKind::TooManyRedirections)), "max_redirections(5) set on a request of a session with limit 8: a chain of 7 must fail");
+        assert_eq!(seen.lock().unwrap().len(), 6, "at most 5 redirects are followed when the request says 5");
+        seen.lock().unwrap().clear();
+        let r = s8.get(&chain7).send().unwrap(); cases += 1;
+        assert_eq!((r.status().as_u16(), seen.lock().unwrap().len()), (200, 8), "the session's limit of 8 covers a chain of 7");
+        let mut soff = s.clone(); soff.follow_redirects(false);
+        seen.lock().unwrap().clear();
+        let r = soff.get(format!("{}/c/301/2/path/x", base)).follow_redirects(true).send().unwrap(); cases += 1;
+        assert_eq!((r.status().as_u16(), seen.lock().unwrap().len()), (200, 3), "follow_redirects(true) on a request of a session that switched following off");
+        seen.lock().unwrap().clear();
+        let r = soff.get(format!("{}/c/301/2/path/x", base)).send().unwrap(); cases += 1;
+        assert_eq!((r.status().as_u16(), seen.lock().unwrap().len()), (301, 1), "the session switched following off");
+    }
     // the same relative Location on consecutive hops names a different URL each time (it is resolved against the hop that sent it)
     for status in [301u16, 302, 303, 307, 308] { for n in 0usize..5 { for max in [0u32, 1, 2, 5] {
         let start = format!("{}/up/{}/{}", base, status, "d/".repeat(n));
